@@ -1189,3 +1189,40 @@ Lemma c14_ex_nested_switch :
   fst (run_prev default_negpow (With false (Seq (With true Obs) Obs))) = [true; false] /\
   fst (run default_negpow (With false (Seq (With false Obs) Obs))) = [false; true].
 Proof. repeat split; reflexivity. Qed.
+
+(* ------------------------------------------------------------------ triple vector products with anything in between *)
+Section DotThenVector.
+  Variable negpow : bool.
+  Variable rk : rank_oracle.
+  Variable inv : inv_oracle.
+  Variable spow : spow_oracle.
+
+  (* once the double-vector flag is set, a chain that still contains a vector factor never returns, whatever numbers,
+     matrices, tensors and divisions stand in between *)
+  Lemma flag_then_vector_refused : forall rest result,
+    Exists (fun p : bool * val => fst p = true /\ is_vector (snd p) = true) rest ->
+    exists e, product_loop negpow rk inv spow result true rest = Raise e.
+  Proof.
+    induction rest as [|[o v] rest IH]; intros result H; [inversion H|].
+    simpl. destruct o.
+    - destruct (is_vector v) eqn:Ev; simpl.
+      + eexists; reflexivity.
+      + inversion H as [? ? [_ Hv]|? ? H']; subst; [simpl in Hv; congruence|].
+        destruct (py_binop negpow rk inv spow Mul result v) as [res'|e]; simpl; [apply IH; exact H' | eexists; reflexivity].
+    - inversion H as [? ? [Ho _]|? ? H']; subst; [discriminate|].
+      destruct (py_binop negpow rk inv spow Div result v) as [res'|e]; simpl; [apply IH; exact H' | eexists; reflexivity].
+  Qed.
+
+  (* a vector.vector step followed, anywhere later in the same chain, by another vector factor is refused:
+     a*b*c, a*b*2*c, a*b*M*c, a*M*b*c (a*M is a vector) ... for operands of any shape in between *)
+  Theorem dot_then_vector_refused : forall result flag b rest,
+    is_vector result = true -> is_vector b = true ->
+    Exists (fun p : bool * val => fst p = true /\ is_vector (snd p) = true) rest ->
+    exists e, product_loop negpow rk inv spow result flag ((true, b) :: rest) = Raise e.
+  Proof.
+    intros result flag b rest Hr Hb H. simpl. rewrite Hb, Hr. simpl.
+    destruct flag; simpl; [eexists; reflexivity|].
+    destruct (py_binop negpow rk inv spow Mul result b) as [res'|e]; simpl; [| eexists; reflexivity].
+    apply flag_then_vector_refused. exact H.
+  Qed.
+End DotThenVector.
